@@ -29,7 +29,7 @@ theorem exists_level (n m : Nat) {d : ℝ} (hd1 : d ≤ 1) :
     exact le_antisymm (Nat.findGreatest_le m) h
 
 /-- `‖Δy‖₂ ≤ √(n+3)·2^(-p)` from the squared bound -/
-theorem dist2_imageCube_le_level {n : Nat} (hn : 2 ≤ n ∧ n ≤ 5) {m p : Nat} (hp : p ≤ m)
+theorem dist2_imageCube_le_level {n : Nat} (hn : Ev.DimOK n) {m p : Nat} (hp : p ≤ m)
     {x' x'' : ℝ} (h0' : 0 ≤ x') (h1' : x' ≤ 1) (h0'' : 0 ≤ x'') (h1'' : x'' ≤ 1)
     (hd : |x' - x''| ≤ 1 / ((2:ℝ)^n)^p) :
     dist2 (imageCube n m x') (imageCube n m x'') ≤ Real.sqrt (n + 3) * (1 / 2^p) := by
@@ -46,7 +46,7 @@ theorem dist2_imageCube_le_level {n : Nat} (hn : 2 ≤ n ∧ n ≤ 5) {m p : Nat
 
 /-- **general root-free form** (no lower bound on `|Δx|`): if `|x' - x''| ≤ t^n` then
 `‖y(x') - y(x'')‖₂ ≤ 2√(n+3)·max(t, 2^-(m+1))`. -/
-theorem dist2_imageCube_le_max {n : Nat} (hn : 2 ≤ n ∧ n ≤ 5) (m : Nat)
+theorem dist2_imageCube_le_max {n : Nat} (hn : Ev.DimOK n) (m : Nat)
     {x' x'' : ℝ} (h0' : 0 ≤ x') (h1' : x' ≤ 1) (h0'' : 0 ≤ x'') (h1'' : x'' ≤ 1)
     {t : ℝ} (ht : 0 ≤ t) (hd : |x' - x''| ≤ t^n) :
     dist2 (imageCube n m x') (imageCube n m x'') ≤
@@ -72,13 +72,13 @@ theorem dist2_imageCube_le_max {n : Nat} (hn : 2 ≤ n ∧ n ≤ 5) (m : Nat)
 
 /-- **root-free Hölder form**: if `2^(-n m) ≤ |x' - x''| ≤ t^n` then
 `‖y(x') - y(x'')‖₂ ≤ 2√(n+3)·t`. -/
-theorem dist2_imageCube_le_of_pow {n : Nat} (hn : 2 ≤ n ∧ n ≤ 5) (m : Nat)
+theorem dist2_imageCube_le_of_pow {n : Nat} (hn : Ev.DimOK n) (m : Nat)
     {x' x'' : ℝ} (h0' : 0 ≤ x') (h1' : x' ≤ 1) (h0'' : 0 ≤ x'') (h1'' : x'' ≤ 1)
     (hlow : 1 / ((2:ℝ)^n)^m ≤ |x' - x''|)
     {t : ℝ} (ht : 0 ≤ t) (hd : |x' - x''| ≤ t^n) :
     dist2 (imageCube n m x') (imageCube n m x'') ≤ 2 * Real.sqrt (n + 3) * t := by
   have h := dist2_imageCube_le_max hn m h0' h1' h0'' h1'' ht hd
-  have hn0 : n ≠ 0 := by omega
+  have hn0 : n ≠ 0 := hn.ne_zero
   have h1 : (1 / (2:ℝ)^m)^n ≤ t^n := by rw [← pow_pow_swap]; exact le_trans hlow hd
   have h2 : 1 / (2:ℝ)^m ≤ t := (pow_le_pow_iff_left₀ (by positivity) ht hn0).1 h1
   have h3 : 1 / (2:ℝ)^(m+1) ≤ 1 / 2^m := by
@@ -87,7 +87,7 @@ theorem dist2_imageCube_le_of_pow {n : Nat} (hn : 2 ≤ n ∧ n ≤ 5) (m : Nat)
   rwa [max_eq_left (le_trans h3 h2)] at h
 
 /-- **additive form** (all `x', x''`): `‖Δy‖₂ ≤ 2√(n+3)·t + √(n+3)·2^-m` if `|Δx| ≤ t^n`. -/
-theorem dist2_imageCube_le_add {n : Nat} (hn : 2 ≤ n ∧ n ≤ 5) (m : Nat)
+theorem dist2_imageCube_le_add {n : Nat} (hn : Ev.DimOK n) (m : Nat)
     {x' x'' : ℝ} (h0' : 0 ≤ x') (h1' : x' ≤ 1) (h0'' : 0 ≤ x'') (h1'' : x'' ≤ 1)
     {t : ℝ} (ht : 0 ≤ t) (hd : |x' - x''| ≤ t^n) :
     dist2 (imageCube n m x') (imageCube n m x'') ≤
